@@ -3,8 +3,11 @@ package common
 
 import (
 	"fmt"
+	"reflect"
 	"sort"
 	"strings"
+
+	"verif/engine/dump"
 
 	cdc "github.com/craterdog/go-collection-framework/v4/cdcn"
 	col "github.com/craterdog/go-collection-framework/v4/collection"
@@ -53,3 +56,104 @@ func PanicClass(msg string) string {
 }
 
 func Sprintf(f string, a ...any) string { return fmt.Sprintf(f, a...) }
+
+// View renders what a caller can observe of v through the public interface:
+// collections by their array view (recursively), associations by key and
+// value, Go slices, arrays and maps element-wise, everything else by value.
+// Oracles that say "unchanged" compare views, never private dumps: a private
+// cache, counter or buffer that no observer can see may change freely.
+func View(v any) string {
+	var b strings.Builder
+	view(&b, reflect.ValueOf(v), 0)
+	return b.String()
+}
+
+func view(b *strings.Builder, v reflect.Value, depth int) {
+	if depth > 40 {
+		b.WriteString("<deep>")
+		return
+	}
+	if !v.IsValid() {
+		b.WriteString("nil")
+		return
+	}
+	for v.Kind() == reflect.Interface {
+		if v.IsNil() {
+			b.WriteString("nil")
+			return
+		}
+		v = v.Elem()
+	}
+	if v.Kind() == reflect.Pointer && v.IsNil() {
+		b.WriteString("nil")
+		return
+	}
+	if v.CanInterface() {
+		if m := v.MethodByName("AsArray"); m.IsValid() && m.Type().NumIn() == 0 && m.Type().NumOut() == 1 {
+			b.WriteString(v.Type().String())
+			if c := v.MethodByName("GetCapacity"); c.IsValid() && c.Type().NumIn() == 0 && c.Type().NumOut() == 1 {
+				fmt.Fprintf(b, "cap=%v", c.Call(nil)[0].Interface())
+			}
+			arr := m.Call(nil)[0]
+			if v.MethodByName("GetKeys").IsValid() && !v.MethodByName("SortValues").IsValid() && arr.Kind() == reflect.Slice {
+				// an associative collection without an order of its own (Map): its array view is in no particular order
+				var ents []string
+				for i := 0; i < arr.Len(); i++ {
+					var e strings.Builder
+					view(&e, arr.Index(i), depth+1)
+					ents = append(ents, e.String())
+				}
+				sort.Strings(ents)
+				b.WriteString("{" + strings.Join(ents, ",") + "}")
+				return
+			}
+			view(b, arr, depth+1)
+			return
+		}
+		k, w := v.MethodByName("GetKey"), v.MethodByName("GetValue")
+		if k.IsValid() && w.IsValid() && k.Type().NumIn() == 0 && w.Type().NumIn() == 0 {
+			b.WriteString("(")
+			view(b, k.Call(nil)[0], depth+1)
+			b.WriteString(":")
+			view(b, w.Call(nil)[0], depth+1)
+			b.WriteString(")")
+			return
+		}
+	}
+	switch v.Kind() {
+	case reflect.Pointer:
+		b.WriteString("&")
+		view(b, v.Elem(), depth+1)
+	case reflect.Slice, reflect.Array:
+		if v.Kind() == reflect.Slice && v.IsNil() {
+			b.WriteString("[]")
+			return
+		}
+		b.WriteString("[")
+		for i := 0; i < v.Len(); i++ {
+			if i > 0 {
+				b.WriteString(",")
+			}
+			view(b, v.Index(i), depth+1)
+		}
+		b.WriteString("]")
+	case reflect.Map:
+		var ents []string
+		it := v.MapRange()
+		for it.Next() {
+			var e strings.Builder
+			view(&e, it.Key(), depth+1)
+			e.WriteString("=>")
+			view(&e, it.Value(), depth+1)
+			ents = append(ents, e.String())
+		}
+		sort.Strings(ents)
+		b.WriteString("{" + strings.Join(ents, ",") + "}")
+	default:
+		if v.CanInterface() {
+			b.WriteString(dump.Dump(v.Interface()))
+		} else {
+			fmt.Fprintf(b, "%v", v)
+		}
+	}
+}
